@@ -7,7 +7,7 @@ log = open(sys.argv[1]).read()
 rules = {}
 cur = None
 for line in log.split("\n"):
-    m = re.match(r"^(?:== )?(?:seeded/)?(C\d\d-[a-j])(?:/patch.diff)?:", line)
+    m = re.match(r"^(?:== )?(?:seeded/)?(C\d\d-[a-z])(?:/patch.diff)?:", line)
     if m:
         cur = m.group(1)
         rules.setdefault(cur, set())
